@@ -32,7 +32,13 @@ struct Out
     bool stop_delivered = false;
     uint64_t visits_at_stop = 0;
     int iterations_completed_at_stop = 0;
+    int max_root_searches_in_one_iteration = 0;
+    bool livelock = false;      // one iteration re-searched the root more than ROUND_LIMIT times: it does not converge
 };
+
+// An aspiration loop that converges widens its window every round and is done after a few dozen re-searches at the very
+// most; hundreds of re-searches of ONE iteration mean the loop alternates between fail-high and fail-low without end.
+constexpr int ROUND_LIMIT = 300;
 
 struct Plan
 {
@@ -49,6 +55,8 @@ struct State
     bool capped = false, stop_delivered = false;
     uint64_t visits_at_stop = 0;
     int iters_done = 0, iters_at_stop = 0;
+    int rounds = 0, max_rounds = 0;
+    bool livelock = false;
 };
 inline State& state()
 {
@@ -60,6 +68,16 @@ inline void callback(int point, engine::Search* s)
 {
     State& st = state();
     if (point == engine::verif::ITER_END) ++st.iters_done;
+    if (point == engine::verif::ITER_BEGIN) st.rounds = 0;
+    if (point == engine::verif::ASPIRATION_ROUND)
+    {
+        st.max_rounds = std::max(st.max_rounds, ++st.rounds);
+        if (st.rounds == ROUND_LIMIT)
+        {
+            st.livelock = true;
+            s->stop();
+        }
+    }
     if (point != engine::verif::NODE && point != engine::verif::QNODE) return;
     ++st.visits;
     if (st.plan.virtual_clock) engine::verif::virtual_elapsed_ms = int64_t(st.visits / st.plan.nodes_per_ms);
@@ -162,6 +180,8 @@ inline Out run(Session& S, const engine::Position& pos, const engine::Limits& li
     o.stop_delivered = st.stop_delivered;
     o.visits_at_stop = st.visits_at_stop;
     o.iterations_completed_at_stop = st.iters_at_stop;
+    o.max_root_searches_in_one_iteration = st.max_rounds;
+    o.livelock = st.livelock;
     return o;
 }
 
